@@ -9,7 +9,7 @@ pandera/schema_statistics (those are interpreted from their live source).
        pd.to_datetime(that text, format=the same format) = Timestamp(floor(ns/10^9)*10^9) (exact inverse on whole seconds)
        pd.to_datetime(bool) raises TypeError; (number | other text) raises ValueError; None -> None; Timestamp -> itself
   * `TdVal`  - a pandas Timedelta, identified with its nanosecond count;  `.value` = ns;
-       pd.to_timedelta(int n, unit="ns") = Timedelta(n ns); bool / text raise ValueError; None -> None; Timedelta -> itself
+       pd.to_timedelta(int n, unit=u) = Timedelta(n * (1 | 10^3 | 10^6 | 10^9) ns) for u = ns | us | ms | s; bool / text raise ValueError; None -> None; Timedelta -> itself
   * JSON transport `transport(x)`:  yaml.safe_load(yaml.safe_dump(x)) == x and json.loads(json.dumps(x)) == x
        for x in the JSON domain  J ::= None | bool | int | float | str | [J*] | {str: J}  (insertion order kept, sort_keys=False);
        tuples come back as lists; anything else is not representable (RepresenterError / TypeError) -> reported.
@@ -243,10 +243,11 @@ def install(I):
             I.raise_py(ValueError, "Value must be Timedelta, string, integer, float, timedelta or convertible, not bool")
         if isinstance(x, (SStr, str, TsText)):
             I.raise_py(ValueError, "unit must not be specified if the input is/contains a str")
-        if isinstance(x, SNum) and x.is_int and unit == "ns":
-            return TdVal(x, "to_timedelta")
-        if isinstance(x, int) and unit == "ns":
-            return TdVal(SNum(z3.IntVal(x)), "to_timedelta")
+        factor = {"ns": 1, "us": 1_000, "ms": 1_000_000, "s": NS}.get(unit)
+        if isinstance(x, SNum) and x.is_int and factor:
+            return TdVal(SNum(x.z * factor), "to_timedelta")
+        if isinstance(x, int) and factor:
+            return TdVal(SNum(z3.IntVal(x * factor)), "to_timedelta")
         raise Unsupported(f"pd.to_timedelta({type(x).__name__}, unit={unit!r})")
 
     # engine bug worked around locally: stdlib_models registers the model of `dict.fromkeys` under the id() of a
@@ -268,6 +269,7 @@ def install(I):
     import builtins as _b
 
     I.models[id(_b.float)] = _float
+    I.models[id(_b.reversed)] = lambda I, seq: ListObj(reversed(list(I.concrete_iter(seq))))
     I.models[id(pd.to_datetime)] = to_datetime
     I.models[id(pd.to_timedelta)] = to_timedelta
 
@@ -385,6 +387,9 @@ def selftest():
         td = pd.Timedelta(ns, unit="ns")
         ax("Timedelta.value is its ns count", td.value == ns, f"ns={ns}")
         ax("to_timedelta(n, unit='ns').value == n", pd.to_timedelta(td.value, unit="ns") == td, f"ns={ns}")
+        if abs(ns) < 10 ** 9:
+            for u, fct in (("us", 1_000), ("ms", 1_000_000), ("s", NS)):
+                ax("to_timedelta(n, unit=u).value == n * factor(u)", pd.to_timedelta(ns, unit=u).value == ns * fct, f"n={ns} unit={u}")
 
     def raises(f, *a, **k):
         try:
